@@ -523,9 +523,21 @@ def opStmt (j : Json) : R Json := do
                                     ("size", Json.num (JsonNumber.fromNat (stmtSize v m)))]
     | .decline => Json.mkObj [("none", Json.bool true)]
     | .hard => Json.mkObj [("hard", Json.bool true)]
+  -- the same statement as source text (optional): parsed by the text front end, then assembled like the forms
+  let textRes : List (String × Json) := match optStr j "text" with
+    | none => []
+    | some t =>
+      let pc : PCfg := { regs := regs, mnemonics := [(optStr j "mn").getD "tst"] }
+      let r : Json := match parseLine pc t.toList with
+        | .ok [.isa _ fs] => match assembleStmt regs gz env addr variants fs with
+            | .ok (i, bs) => Json.mkObj [("variant", Json.num (JsonNumber.fromNat i)), ("bytes", jNats bs)]
+            | .error e => Json.mkObj [("err", Json.str e.name)]
+        | .ok _ => Json.mkObj [("err", Json.str "notOneStatement")]
+        | .error e => Json.mkObj [("err", Json.str ("parse:" ++ e.name))]
+      [("text", r)]
   match assembleStmt regs gz env addr variants forms with
-  | .ok (i, bs) => return Json.mkObj [("variant", Json.num (JsonNumber.fromNat i)), ("bytes", jNats bs), ("sel", sel)]
-  | .error e => return Json.mkObj [("err", Json.str e.name), ("sel", sel)]
+  | .ok (i, bs) => return Json.mkObj ([("variant", Json.num (JsonNumber.fromNat i)), ("bytes", jNats bs), ("sel", sel)] ++ textRes)
+  | .error e => return Json.mkObj ([("err", Json.str e.name), ("sel", sel)] ++ textRes)
 
 /-- op "macro": macro variant selection, template instantiation, step-by-step assembly -/
 def opMacro (j : Json) : R Json := do
